@@ -121,7 +121,10 @@ fn inlined_prog(c: &MacroCase) -> Prog {
     }
     items.push(Item::Label("G".into()));
     for x in c.prefix {
-        items.push(Item::Instr(x.to_string()));
+        match x.strip_suffix(':') {
+            Some(name) => items.push(Item::Label(name.to_string())),
+            None => items.push(Item::Instr(x.to_string())),
+        }
     }
     let sub = |b: &str| -> String { b.replace("{p}", c.args.0).replace("{q}", c.args.1).replace(" l", " zl_0").replace("#l", "#zl_0") };
     for (i, b) in c.body.iter().enumerate() {
@@ -159,6 +162,9 @@ fn judge_macro(c: &MacroCase, l: &mut Local) {
     } else if c01::disagreement(&io, &r).is_some() {
         // the inlined program itself disagrees with the reference: C01's business, no verdict here
         l.count("inlined_program_disagrees_with_reference_left_to_C01", 1);
+        if std::env::var("C17_DEBUG").is_ok() {
+            eprintln!("DISAGREE {:?}: {} || ref: {} || real: {}", c01::disagreement(&io, &r), isrc[isrc.find("G:").unwrap_or(0)..].replace('\n', " / "), c01::ref_summary(&r), io.summary());
+        }
         return;
     } else if io.success() {
         if mo.success() {
